@@ -56,7 +56,9 @@ class Engine:
         self.nfresh += 1
         v = ir.var('%s!%d' % (name, self.nfresh), sort)
         self.vars[v.args[0]] = v
-        if lo is not None: self.assume(ir.gt(v, lo) if lo_open else ir.ge(v, lo))
+        if lo is not None:
+            self.assume(ir.gt(v, lo) if lo_open else ir.ge(v, lo))
+            if sort != 'B' and (lo > 0 or (lo == 0 and (lo_open or nonzero))): ir.KNOWN_POS.add(v.id)
         if hi is not None: self.assume(ir.lt(v, hi) if hi_open else ir.le(v, hi))
         if nonzero: self.assume(ir.ne(v, 0))
         return v
@@ -375,7 +377,7 @@ class Engine:
         while True:
             self._tick()
             self.s.push(); self.pos = 0; self.pc = []; self.nfresh = 0; self.model_env = None
-            self.nonzero = set(); self.path_obl = []; self._implied = {}
+            self.nonzero = set(); self.path_obl = []; self._implied = {}; ir.KNOWN_POS.clear()
             try:
                 r = body()
                 self.stats['paths'] += 1
